@@ -21,7 +21,7 @@ def run(ctx):
         ctx.model_check("MC_Issuance", ctx.pick("MC_Issuance_t%d.cfg" % t, "MC_Issuance_t%d_thorough.cfg" % t))
     n, cases, kinds = ic.run(ctx, "C10", ["verify"])
     vn, vcases, vdepth = vc.run(ctx, ['t1verify', 't5verify'])   # Verdicts.tla: every history of presentations on one long-lived object
-    an, acases = ag.run(ctx, ['t1verify', 't5verify'])   # Ages.tla: every schedule of phases on one long-lived object, each phase scaled to n operations
+    an, acases = ag.run(ctx, ['t1verify', 't5verify', 'rekey'])   # Ages.tla: every schedule of phases on one long-lived object, each phase scaled to n operations
     return ctx.finish({
         **ag.coverage(an, acases),
         "traces_validated_against_impl": n,
